@@ -405,11 +405,20 @@ def _histories(res, tier, seed, pname, f, args, kw, jargs, sf, key, r0, call_eag
     if tier == "quick" and pname not in ("flat", "cond", "gf_call", "adev", "custom_jvp_site", "kwargs", "kw_order"):
         depth = 1  # quick: length-2 histories for six shapes, length-1 for the others; all at 3 in thorough
     first = int(part)
+    n_hist = 0
     for L_ in range(1, depth + 1):
         for hist in itertools.product(range(len(ops)), repeat=L_):
             if hist[0] != first:
                 continue
             handler_stack.clear()
+            n_hist += 1
+            if n_hist % 12 == 0:
+                # every history stages fresh executables; a depth-3 item would exhaust the process's memory
+                # mappings ("LLVM ERROR: Unable to allocate section memory") without releasing them
+                import gc
+
+                jax.clear_caches()
+                gc.collect()
             labels = []
             for pos, oi in enumerate(hist):
                 label, op = ops[oi]
